@@ -1084,6 +1084,11 @@ private:
    /// Since arguments from the environment variable could trigger reading an
    /// argument file, these two states must be managed separately.
    uint8_t                        mReadMode = ReadMode::commandLine;
+   /// The maximum number of argument files that may be read nested, i.e. that
+   /// are read through the argument file argument in another argument file.
+   static constexpr int           MaxArgFileNesting = 20;
+   /// The number of argument files that are currently being read (nested).
+   int                            mArgFileNesting = 0;
    /// Flag, set when this argument handler object was created by a Groups
    /// object.
    bool                           mUsedByGroup;
